@@ -157,7 +157,10 @@ def verdict (m : Mon) (auth : List Nat) (op : Op) (o : Obs) : Option String :=
       else if ¬ holderIn m.holder auth then some "site=rt.guarded.unauthorized a holder-only function ran without the holder's authorization"
       else none
     | .advance _ =>
-      if o.holder ≠ m.holder then some "site=rt.holder.changed the holder changed by the passage of time" else none
+      -- nothing that must persist may change while nobody touches the contract
+      if o.holder ≠ m.holder then
+        some s!"site=rt.idle.changed the holder changed {showOpt m.holder} -> {showOpt o.holder} by the mere passage of time (ledger {m.now} -> {o.now})"
+      else none
 
 def check (m : Mon) (opl obs : String) : Mon × Option String :=
   match parseOp (words opl), parseObs obs with
